@@ -22,11 +22,12 @@ META = dict(
            'lazy_parallel_map/single_thread_prefetch -> serial contract'],
     assumptions=['"configuration parameter" = attributes that correspond to constructor parameters, plus rng; lazily filled caches (_keys, _do_cache) are state; a shared _cache/time/hit_count must be the same object',
                  'CycleDataset defines no copy() (it refuses with NotImplementedError) and is not part of the copy family'],
-    bounds=dict(quick='n <= 3, 2 epochs, 6 pipelines with random stages x {plain, copy, prefetch(1,2), prefetch(2,2)}', thorough='n <= 3, 3 epochs'),
+    bounds=dict(quick='n <= 3 (frozen copies: n <= 2), 2 epochs, 6 pipelines with random stages x {plain, copy, prefetch(1,2), prefetch(2,2)}', thorough='n <= 3, 3 epochs'),
     outside=['random stages at depth > 3', 'n above the bound'],
 )
 
-RA = [(f'r{i}', 'int') for i in range(9)]
+NR, NC = 15, 6        # entries of the permutation / choice carriers (a condition that runs out of entries is reported as a harness error)
+RA = [(f'r{i}', 'int') for i in range(NR)]
 GA = [(f'g{i}', 'int') for i in range(9)]
 CA = [(f'c{i}', 'int') for i in range(6)]
 
@@ -55,7 +56,7 @@ PIPELINES = ['reshuffle', 'local', 'oneshot', 'reshuffle_map', 'map_local_batch'
 
 def body_seed(pid, variant, backing, n, epochs, *args):
     """two identically built pipelines with equally seeded generators agree in every epoch, whatever the global generator does"""
-    r, c, g = list(args[:9]), list(args[9:15]), list(args[15:])
+    r, c, g = list(args[:NR]), list(args[NR:NR + NC]), list(args[NR + NC:])
     ra, rb = rt.Rng(sel=list(r), choices=list(c)), rt.Rng(sel=list(r), choices=list(c))
     glob_a = rt.Rng(sel=list(g), choices=[0, 0, 0, 0, 0, 0])
     glob_b = rt.Rng(sel=list(reversed(g)), choices=[1, 1, 1, 1, 1, 1])
@@ -80,7 +81,7 @@ def body_seed(pid, variant, backing, n, epochs, *args):
 
 def body_frozen(pid, backing, n, *args):
     """copy(freeze=True) of a per-epoch reshuffle iterates in one fixed order forever; reshuffling datasets report unordered"""
-    r, c = list(args[:9]), list(args[9:15])
+    r, c = list(args[:NR]), list(args[NR:NR + NC])
     rng = rt.Rng(sel=list(r), choices=list(c))
     ds = _build(pid, n, backing, rng)
     if pid in ('reshuffle', 'local', 'reshuffle_map', 'map_local_batch', 'cat', 'apply'):
@@ -124,7 +125,7 @@ def body_frozen(pid, backing, n, *args):
             if [v for v in a] != [rt.KEYS.index(k) for k in ks]:
                 return False
     base = sorted(leafs(a))
-    want = sorted(leafs(list(_build(pid, n, backing, rt.Rng(sel=[0] * 9, choices=[0] * 6)))))
+    want = sorted(leafs(list(_build(pid, n, backing, rt.Rng(sel=[0] * NR, choices=[0] * NC)))))
     return base == want
 
 
@@ -249,7 +250,7 @@ STAGES = ['dict', 'list', 'map', 'parmap', 'apply', 'catch', 'prefetch', 'reshuf
 
 
 def body_copy(kind, flag, p0, p1):
-    rng = rt.Rng(sel=[0] * 9, choices=[0] * 6)
+    rng = rt.Rng(sel=[0] * NR, choices=[0] * NC)
     ds = _stage(kind, p0, p1, flag, rng)
     cp = ds.copy()
     rt.reached()
@@ -264,7 +265,7 @@ FAMILIES = [
                                if not (p in ('cat', 'local', 'map_local_batch') and n == 3 and tier == 'quick')],
            timeout=dict(quick=90, thorough=900), desc='equally seeded twins agree epoch by epoch, also through copy() and prefetch, independent of the global generator'),
     Family('frozen', body_frozen, ['pid', 'backing', 'n'], RA + CA,
-           lambda tier, seed: [(p, b, n) for p in PIPELINES for b in ('list', 'dict') for n in (0, 2, 3) if not (n == 3 and tier == 'quick' and p != 'reshuffle')
+           lambda tier, seed: [(p, b, n) for p in PIPELINES for b in ('list', 'dict') for n in (0, 2, 3) if not (n == 3 and tier == 'quick')
                                and not (b == 'dict' and p not in ('reshuffle', 'oneshot'))], timeout=dict(quick=90, thorough=600),
            desc='one-time shuffle and copy(freeze=True) iterate in one fixed order; reshuffling datasets report unordered'),
     Family('copy', body_copy, ['kind', 'flag'], [('p0', 'int'), ('p1', 'int')], lambda tier, seed: [(k, f) for k in STAGES for f in (False, True)], timeout=60,
